@@ -88,6 +88,9 @@ type Frame struct {
 	curIdx    int
 	inLoopHdr *ssa.BasicBlock
 	loopBody  map[*ssa.BasicBlock]map[*ssa.BasicBlock]bool
+	frameDone bool
+	loopEntries map[*ssa.BasicBlock]*State
+	frameTs   []modTarget
 }
 
 type rangeInfo struct {
@@ -105,7 +108,18 @@ type rangeInfo struct {
 func (e *Engine) comp(name, sort string) string {
 	if _, ok := e.compSort[name]; !ok {
 		e.compSort[name] = sort
-		e.vc.decl("comp:"+name, fmt.Sprintf("(declare-const %s %s)", sym(name+"@0"), sort))
+		c0 := sym(name + "@0")
+		e.vc.decl("comp:"+name, fmt.Sprintf("(declare-const %s %s)", c0, sort))
+		// closed initial heap: what pre-allocated cells hold was allocated before the call
+		switch {
+		case sort == "(Array Loc Loc)":
+			e.vc.decl("closed:"+name, fmt.Sprintf("(assert (forall ((l Loc)) (! (=> (< (rootid l) alloc@0) (< (rootid (select %s l)) alloc@0)) :pattern ((select %s l)))))", c0, c0))
+		case sort == "(Array Loc Slice)":
+			e.vc.decl("closed:"+name, fmt.Sprintf("(assert (forall ((l Loc)) (! (=> (< (rootid l) alloc@0) (< (rootid (s_arr (select %s l))) alloc@0)) :pattern ((select %s l)))))", c0, c0))
+		case strings.HasPrefix(sort, "(Array Loc (Array ") && strings.HasSuffix(sort, " Loc))"):
+			ks := strings.TrimSuffix(strings.TrimPrefix(sort, "(Array Loc (Array "), " Loc))")
+			e.vc.decl("closed:"+name, fmt.Sprintf("(assert (forall ((l Loc) (k %s)) (! (=> (< (rootid l) alloc@0) (< (rootid (select (select %s l) k)) alloc@0)) :pattern ((select (select %s l) k)))))", ks, c0, c0))
+		}
 	}
 	return name
 }
@@ -713,6 +727,10 @@ func (fr *Frame) enterLoop(h *ssa.BasicBlock, edges []edgeIn, dry bool) *State {
 		fr.unsup("inlined function has a loop (loop %d) and no invariants; give it a contract", ord)
 	}
 	// init obligations
+	if fr.loopEntries == nil {
+		fr.loopEntries = map[*ssa.BasicBlock]*State{}
+	}
+	fr.loopEntries[h] = entry.clone()
 	fr.inLoopHdr = h
 	env := fr.loopBindings(h, entry, entryPhi)
 	for k, c := range invs {
@@ -722,6 +740,9 @@ func (fr *Frame) enterLoop(h *ssa.BasicBlock, edges []edgeIn, dry bool) *State {
 	// havoc
 	hst := entry.clone()
 	for _, c := range sortedKeys(fr.loopMods[h]) {
+		if c == "$alloc" {
+			continue
+		}
 		hst.heap[c] = vc.fresh("lh$"+c, e.compSort[c])
 	}
 	if fr.loopMods[h]["$alloc"] {
@@ -746,7 +767,39 @@ func (fr *Frame) enterLoop(h *ssa.BasicBlock, edges []edgeIn, dry bool) *State {
 		vc.assumeIf(hst.pc, fr.evalClause(c, hst, env))
 	}
 	fr.autoRangeFacts(h, hst)
+	// automatic frame invariant: what the function's modifies clause excludes stays equal to the entry heap
+	for _, c := range sortedKeys(fr.loopMods[h]) {
+		if g := fr.frameGoal(c, entry); g != "" {
+			vc.oblige(fr.oblName(fmt.Sprintf("loop%d.init.frame.%s", ord, c)), "loop-init", entry.pc, g, "loop frame: "+c+" unchanged outside the modifies clause")
+			vc.assumeIf(hst.pc, fr.frameGoal(c, hst))
+		}
+	}
 	return hst
+}
+
+// frameGoal: component c of st agrees with the entry heap on every pre-allocated location
+// that the function's modifies clause does not name. "" when not applicable.
+func (fr *Frame) frameGoal(c string, st *State) Term {
+	if !fr.top || fr.con == nil || !fr.con.HasMod || fr.con.ModAll || strings.HasPrefix(c, "$") {
+		return ""
+	}
+	e := fr.eng
+	if !strings.HasPrefix(e.compSort[c], "(Array Loc ") {
+		return ""
+	}
+	if !fr.frameDone {
+		fr.frameDone = true
+		menv := fr.specEnvFor(fr.entry)
+		fr.frameTs = menv.resolveModifies(fr.con.Modifies)
+	}
+	cur := e.get(st, c)
+	init := sym(c + "@0")
+	if cur == init {
+		return "true"
+	}
+	l := "l!frame"
+	cond := and(fmt.Sprintf("(< (rootid %s) alloc@0)", l), notInTargets(fr.frameTs, c, l))
+	return fmt.Sprintf("(forall ((%s Loc)) (! (=> %s (= (select %s %s) (select %s %s))) :pattern ((select %s %s))))", l, cond, cur, l, init, l, cur, l)
 }
 
 func clauseID(c *Clause, k int) string {
@@ -769,6 +822,11 @@ func (fr *Frame) backEdge(h *ssa.BasicBlock, st *State, predIdx int, dry bool) {
 	for k, c := range fr.invariants(h) {
 		g := fr.evalClause(c, st, env)
 		vc.oblige(fr.oblName(fmt.Sprintf("loop%d.step.%s", ord, clauseID(c, k))), "loop-step", st.pc, g, c.Src)
+	}
+	for _, c := range sortedKeys(fr.loopMods[h]) {
+		if g := fr.frameGoal(c, st); g != "" && g != "true" {
+			vc.oblige(fr.oblName(fmt.Sprintf("loop%d.step.frame.%s", ord, c)), "loop-step", st.pc, g, "loop frame: "+c+" unchanged outside the modifies clause")
+		}
 	}
 	fr.autoRangeStep(h, st)
 }
